@@ -66,7 +66,7 @@ def basis_name(basis):
 
 # Bases without unary operators: few functions per complexity, so complexity 7 (functions with 3 and 4 parameters) is affordable
 DEEP = [([["x", "a"], [], ["+", "*"]], 7), ([["x", "a"], [], ["+", "*"]], 5), ([["x", "a"], [], ["+", "-"]], 7), ([["x", "a"], [], ["*", "/"]], 7),
-        ([["x", "a"], [], ["*", "pow"]], 5), ([["a", "x"], [], ["+", "*", "-"]], 5),
+        ([["x", "a"], [], ["*", "pow"]], 5), ([["a", "x"], [], ["+", "*", "-"]], 5), ([["x", "a"], [], ["-", "*"]], 7), ([["x", "a"], [], ["/", "pow"]], 7),
         # long operator names at complexity 7-8: label arrays and function texts beyond the 75/80-character line widths
         ([["x", "a"], ["log10_abs"], []], 7), ([["x", "a"], ["log10_abs", "sqrt_abs"], []], 8), ([["x", "a"], ["log10_abs"], ["*"]], 7)]
 
